@@ -342,6 +342,15 @@ def plan(tier, seed, rng):
     else:
         small = sorted(common, key=lambda c: c.size)[:4]
         units.append(Unit("C15", offcfgs[0], small, ["props/c15.h"], max_success=ms))
+    # fixed evaluation order: network_contraction.h compiles a second, cost-model-free implementation of the 3- and 4-operand networks under
+    # -DFASTOR_KEEP_DP_FIXED (left-to-right / (a.b).(c.d)). It is the only way to run "operation minimisation disabled" on this tree
+    # (KF-C15-5), and a different evaluation order by definition
+    fx = ("FASTOR_KEEP_DP_FIXED",)
+    for cfg in ([Config("sse2", "c++17", "-O2", True, "g++", fx)] if tier == "quick" else
+                [Config("sse2", "c++17", "-O2", True, "g++", fx), Config("avx2", "c++14", "-O2", True, "g++", fx), Config("avx512", "c++17", "-O3", False, "g++", fx)]):
+        cs = common + (cxx17 if cfg.std == "c++17" else [])
+        if tier == "quick": cs = cs[::2]
+        place(cfg, cs)
     if tier == "thorough":
         from vf.core import thin_units
         units = thin_units(units, seed, 0.5, 0.2)
